@@ -17,6 +17,12 @@ use serde_json::{json, Value};
 
 pub const VERIF_DIR: &str = "/verif";
 
+/// Where a run writes (evidence, found replays, scratch). Defaults to
+/// /verif; selftest runs against mutated scratch copies redirect it.
+pub fn out_dir() -> String {
+    std::env::var("VERIF_OUT").unwrap_or_else(|_| VERIF_DIR.to_string())
+}
+
 #[derive(Clone, Copy, Debug, PartialEq, Eq)]
 pub enum Tier {
     Quick,
@@ -441,7 +447,7 @@ impl Engine {
             .find(|k| k.signature == fail.sig)
             .map(|k| k.text.clone());
         let digest = fnv(serde_json::to_string(&case).unwrap().as_bytes());
-        let dir = format!("{}/replays/found", VERIF_DIR);
+        let dir = format!("{}/replays/found", out_dir());
         let _ = std::fs::create_dir_all(&dir);
         let path = PathBuf::from(format!(
             "{}/{}-{}-{:016x}.json",
@@ -748,7 +754,7 @@ impl Engine {
             "wall_s": (wall * 100.0).round() / 100.0,
             "violations": n_viol,
         });
-        let dir = format!("{}/evidence", VERIF_DIR);
+        let dir = format!("{}/evidence", out_dir());
         let _ = std::fs::create_dir_all(&dir);
         let path = format!("{}/{}.json", dir, self.prop);
         std::fs::write(&path, serde_json::to_string_pretty(&doc).unwrap())
